@@ -54,7 +54,8 @@ class FunctionMapping(AlternativeMapping[FunctionType]):
     def create_instance(cls, obj: Callable) -> Self:
 
         if "." in obj.__qualname__:
-            class_name = obj.__qualname__.split(".")[0]
+            # all enclosing classes: a method of a nested class is "Outer.Inner.method"
+            class_name = obj.__qualname__.rsplit(".", 1)[0]
         else:
             class_name = None
         dao = cls(
@@ -71,7 +72,8 @@ class FunctionMapping(AlternativeMapping[FunctionType]):
 
         module = importlib.import_module(self.module_name)
 
+        owner = module
         if self.class_name is not None:
-            return getattr(getattr(module, self.class_name), self.function_name)
-        else:
-            return getattr(module, self.function_name)
+            for name in self.class_name.split("."):
+                owner = getattr(owner, name)
+        return getattr(owner, self.function_name)
